@@ -18,7 +18,7 @@ NPROC = str(os.cpu_count() or 4)
 GOENV = dict(os.environ, GOFLAGS="-mod=mod", GOPROXY="off", GOSUMDB="off", GOTOOLCHAIN="local",
              CGO_ENABLED="0")
 
-FORBIDDEN = re.compile(r"\b(Admitted|admit|Axiom|Axioms|Parameter|Parameters|Conjecture|Hypothesis|Variable|Variables|Hypotheses)\b|Unset\s+Guard|bypass_check|type-in-type|impredicative-set|Admit\s+Obligations|Unset\s+Universe\s+Checking|Unset\s+Positivity")
+FORBIDDEN = re.compile(r"\b(Admitted|admit|Axiom|Axioms|Parameter|Parameters|Conjecture|Hypothesis|Variable|Variables|Hypotheses|Context)\b|Unset\s+Guard|bypass_check|type-in-type|impredicative-set|Admit\s+Obligations|Unset\s+Universe\s+Checking|Unset\s+Positivity")
 
 
 def log(*a):
@@ -75,7 +75,7 @@ def scan_forbidden():
             m = FORBIDDEN.search(line)
             if m:
                 word = m.group(0)
-                if word.split()[0] in ("Variable", "Variables", "Hypothesis", "Hypotheses") and depth > 0:
+                if word.split()[0] in ("Variable", "Variables", "Hypothesis", "Hypotheses", "Context") and depth > 0:
                     pass
                 else:
                     hits.append("%s:%d: %s" % (rel, ln, line.strip()[:120]))
